@@ -259,8 +259,6 @@ theorem find_le_sum {k : Str} {s : Inst} {l : States} (h : AllOk l) (hf : find k
 
 /-! ### one `SetState` -/
 
-def newId (state : Inst) (rid : Int) : Int := if rid > 0 then rid else state.requestId
-
 /-- `report` with its `let`s flattened -/
 theorem report_eq (g : G) (inst : Str) (state : Inst) (rid cur : Int) :
     report g inst state rid cur =
@@ -531,5 +529,301 @@ theorem setState_find_other (g : G) (inst j : Str) (rid cur : Int) (h : j ≠ in
     | none => rw [setState_remove_none g inst rid cur hneg hf]
     | some s => rw [setState_remove_some g inst rid cur s hneg hf]; exact find_erase_other _ h
   · rw [setState_report g inst rid cur (by omega), report_find_other _ _ _ _ _ _ h, ensure_find_other _ _ _ h]
+
+/-! ### the server token bucket -/
+
+theorem tfn_add (q a b : Int) : tokensFromNs q (a + b) = tokensFromNs q a + tokensFromNs q b := by
+  unfold tokensFromNs nsPerSec
+  grind
+
+theorem tfn_nonneg (q d : Int) (hq : 0 ≤ q) (hd : 0 ≤ d) : 0 ≤ tokensFromNs q d := by
+  unfold tokensFromNs nsPerSec
+  have h1 : (0 : Rat) ≤ (d : Rat) := by exact_mod_cast hd
+  have h2 : (0 : Rat) ≤ (q : Rat) := by exact_mod_cast hq
+  have := Rat.mul_nonneg h1 h2
+  grind
+
+theorem tfn_split (q t0 now t : Int) : tokensFromNs q (t - t0) = tokensFromNs q (t - now) + tokensFromNs q (now - t0) := by
+  rw [← tfn_add]; congr 1; omega
+
+theorem avail_le_burst (b : Bucket) (t : Int) : avail b t ≤ (b.burst : Rat) := by
+  unfold avail advance ratMin
+  cases b.last with
+  | none => simp
+  | some l => simp only; split <;> grind
+
+theorem avail_nonneg (b : Bucket) (t : Int) (hq : 0 ≤ b.qps) (hb : 0 ≤ b.burst) (htok : 0 ≤ b.tokens) (hm : Mono b t) :
+    0 ≤ avail b t := by
+  unfold avail advance ratMin
+  have hbr : (0 : Rat) ≤ (b.burst : Rat) := by exact_mod_cast hb
+  cases hl : b.last with
+  | none => simpa using hbr
+  | some l =>
+    have hle := hm l hl
+    have hn : ¬ t < l := by omega
+    simp only [hn, if_false]
+    have := tfn_nonneg b.qps (t - l) hq (by omega)
+    split <;> grind
+
+/-- refilling is at most linear: waiting from `t0` to `t` adds at most `qps·(t − t0)` -/
+theorem avail_step (b : Bucket) (t0 t : Int) (hq : 0 ≤ b.qps) (hm : Mono b t0) (ht : t0 ≤ t) :
+    avail b t ≤ avail b t0 + tokensFromNs b.qps (t - t0) := by
+  unfold avail advance ratMin
+  have hF := tfn_nonneg b.qps (t - t0) hq (by omega)
+  cases hl : b.last with
+  | none => simp only; grind
+  | some l =>
+    have hle := hm l hl
+    have hn1 : ¬ t < l := by omega
+    have hn2 : ¬ t0 < l := by omega
+    simp only [hn1, hn2, if_false]
+    have := tfn_split b.qps l t0 t
+    split <;> split <;> grind
+
+/-- **The bucket lemma** (potential function): a call at `now` (clock readings in order, `n ≥ 0`) hands out `g`
+    tokens and leaves a bucket that, at any later time `t`, holds at most what the old bucket would have held
+    at `now`, plus the refill since, minus `g`. -/
+theorem allowN_potential (b : Bucket) (now n t : Int) (hq : 0 ≤ b.qps) (hm : Mono b now) (ht : now ≤ t) :
+    ((granted (allowN b now n).2 n : Int) : Rat) + avail (allowN b now n).1 t ≤ avail b now + tokensFromNs b.qps (t - now) ∧
+    Mono (allowN b now n).1 now ∧ (allowN b now n).1.qps = b.qps ∧ (allowN b now n).1.burst = b.burst ∧
+    (0 ≤ b.tokens → 0 ≤ (allowN b now n).1.tokens) ∧
+    ((allowN b now n).2 = true → (n : Rat) ≤ avail b now) := by
+  have hF := tfn_nonneg b.qps (t - now) hq (by omega)
+  have hstep := avail_step b now t hq hm ht
+  unfold allowN
+  simp only []
+  cases hok : (decide (n ≤ b.burst) && decide (0 ≤ (advance b now).2 - (n : Rat))) with
+  | true =>
+    simp only [if_true]
+    have h2 : (0 : Rat) ≤ (advance b now).2 - (n : Rat) := by
+      rw [Bool.and_eq_true] at hok; exact of_decide_eq_true hok.2
+    refine ⟨?_, ?_, trivial, trivial, fun _ => h2, fun _ => ?_⟩
+    · have hnn : ¬ t < now := by omega
+      simp only [granted, if_true, avail, advance, hnn, if_false, ratMin]
+      split <;> grind
+    · intro l hl; simp only [Option.some.injEq] at hl; omega
+    · unfold avail; grind
+  | false =>
+    simp only [Bool.false_eq_true, if_false]
+    refine ⟨?_, ?_, trivial, trivial, fun h => h, fun h => by cases h⟩
+    · have hsame : avail { b with last := (advance b now).1 } t = avail b t := by
+        unfold avail advance
+        cases hl : b.last with
+        | none => rfl
+        | some l =>
+          have hle := hm l hl
+          have hn1 : ¬ now < l := by omega
+          simp only [hn1, if_false]
+      rw [hsame]
+      simp only [granted, Bool.false_eq_true, if_false]
+      have : ((0 : Int) : Rat) = 0 := by norm_cast
+      rw [this]; grind
+    · intro l hl
+      simp only [advance] at hl
+      cases hl' : b.last with
+      | none => rw [hl'] at hl; simp at hl
+      | some l0 =>
+        rw [hl'] at hl
+        have hle := hm l0 hl'
+        have hn1 : ¬ now < l0 := by omega
+        simp only [hn1, if_false, Option.some.injEq] at hl
+        omega
+
+theorem chain_le_last (t0 : Int) (l : List Int) (h : Chain t0 l) : t0 ≤ lastFrom t0 l := by
+  induction l generalizing t0 with
+  | nil => exact Int.le_refl _
+  | cons x r ih => have := ih x h.2; have := h.1; unfold lastFrom; omega
+
+theorem mono_later {b : Bucket} {t0 t : Int} (h : Mono b t0) (ht : t0 ≤ t) : Mono b t :=
+  fun l hl => by have := h l hl; omega
+
+theorem tbDivisor_eq : KG.Gen.C08.tbDivisor = 2 := rfl
+
+/-- potential lemma for the retry loop of `DoAcquire` -/
+theorem tbLoop_potential (nows : List Int) (b : Bucket) (token t0 t : Int) (hq : 0 ≤ b.qps) (h0 : 0 ≤ token)
+    (hm : Mono b t0) (hc : Chain t0 nows) (ht : lastFrom t0 nows ≤ t) :
+    (((tbLoop b token nows).2.2 : Int) : Rat) + avail (tbLoop b token nows).1 t ≤ avail b t0 + tokensFromNs b.qps (t - t0) ∧
+    Mono (tbLoop b token nows).1 t ∧ (tbLoop b token nows).1.qps = b.qps ∧ (tbLoop b token nows).1.burst = b.burst ∧
+    (0 ≤ b.tokens → 0 ≤ (tbLoop b token nows).1.tokens) ∧
+    0 ≤ (tbLoop b token nows).2.2 ∧ (tbLoop b token nows).2.2 ≤ token ∧
+    ((tbLoop b token nows).2.1 = false → (tbLoop b token nows).2.2 = 0) := by
+  induction nows generalizing b token t0 with
+  | nil =>
+    simp only [tbLoop, lastFrom] at ht ⊢
+    have := avail_step b t0 t hq hm ht
+    have h0' : ((0 : Int) : Rat) = 0 := by norm_cast
+    refine ⟨by rw [h0']; grind, mono_later hm ht, trivial, trivial, fun h => h, Int.le_refl _, h0, fun _ => trivial⟩
+  | cons now rest ih =>
+    have hle : t0 ≤ now := hc.1
+    have hlast : now ≤ lastFrom now rest := chain_le_last now rest hc.2
+    have hnt : now ≤ t := by simp only [lastFrom] at ht; omega
+    have hmn : Mono b now := mono_later hm hle
+    obtain ⟨p1, p2, p3, p4, p5, _⟩ := allowN_potential b now token t hq hmn hnt
+    have hs := avail_step b t0 now hq hm hle
+    have hsp := tfn_split b.qps t0 now t
+    unfold tbLoop
+    simp only []
+    cases hok : (allowN b now token).2 with
+    | true =>
+      simp only [if_true]
+      rw [hok] at p1
+      simp only [granted, if_true] at p1
+      refine ⟨by grind, mono_later p2 hnt, p3, p4, p5, h0, Int.le_refl _, fun h => by cases h⟩
+    | false =>
+      simp only [Bool.false_eq_true, if_false]
+      rw [hok] at p1
+      simp only [granted, Bool.false_eq_true, if_false] at p1
+      have h0' : ((0 : Int) : Rat) = 0 := by norm_cast
+      rw [h0'] at p1
+      by_cases hz : token / KG.Gen.C08.tbDivisor ≤ 0
+      · simp only [hz, if_true]
+        refine ⟨by rw [h0']; grind, mono_later p2 hnt, p3, p4, p5, Int.le_refl _, h0, fun _ => trivial⟩
+      · simp only [hz, if_false]
+        have hq' : 0 ≤ (allowN b now token).1.qps := by rw [p3]; exact hq
+        have ht' : lastFrom now rest ≤ t := by simpa only [lastFrom] using ht
+        have hpos : 0 ≤ token / KG.Gen.C08.tbDivisor := by omega
+        obtain ⟨q1, q2, q3, q4, q5, q6, q7, q8⟩ :=
+          ih (allowN b now token).1 (token / KG.Gen.C08.tbDivisor) now hq' hpos p2 hc.2 ht'
+        -- potential of the failed call evaluated at `now`
+        obtain ⟨r1, _⟩ := allowN_potential b now token now hq hmn (Int.le_refl _)
+        rw [hok] at r1
+        simp only [granted, Bool.false_eq_true, if_false] at r1
+        rw [h0'] at r1
+        have hz0 : tokensFromNs b.qps (now - now) = 0 := by
+          have : now - now = 0 := by omega
+          rw [this]; unfold tokensFromNs; grind
+        rw [hz0] at r1
+        rw [p3] at q1
+        have hdiv : token / KG.Gen.C08.tbDivisor ≤ token := by rw [tbDivisor_eq]; omega
+        refine ⟨by grind, q2, by rw [q3, p3], by rw [q4, p4], fun h => q5 (p5 h), q6, by omega, q8⟩
+
+/-! ### lemmas about runs, interleavings and the judge -/
+
+theorem stale_iff (g : G) (i : Str) (r : Int) :
+    stale g i r = true ↔ ∃ s, find i g.states = some s ∧ 0 < r ∧ r ≤ s.requestId := by
+  unfold stale
+  cases hf : find i g.states with
+  | none => simp
+  | some s => simp
+
+/-- what a processed (`err = nil`) report leaves registered: the count it answers as `latest` -/
+theorem setState_latest (g : G) (i : Str) (r c : Int) (h : WF g) (hc : InI32 c) (h0 : 0 ≤ c)
+    (he : (setState g i r c).2.err = .none) :
+    (find i (setState g i r c).1.states).map (·.count) = some (setState g i r c).2.latest := by
+  rw [setState_report g i r c h0] at he ⊢
+  by_cases hs : r > 0 ∧ r ≤ (stateOf g i).requestId
+  · rw [report_stale _ _ _ _ _ hs] at he; cases he
+  · rcases report_cases (ensure g i) i (stateOf g i) r c (ensure_wf i h).count (stateOf_ok i h) ⟨h0, hc.2⟩ hs with
+      ⟨_, _, e⟩ | ⟨_, e⟩
+    · rw [e]; show (find i (put i _ _)).map _ = _; rw [find_put_self]; rfl
+    · rw [e]; show (find i (put i _ _)).map _ = _; rw [find_put_self]; rfl
+
+theorem init_modInv (m : Int) (hm : InI32 m) : ModInv (G.init m) :=
+  ⟨⟨hm, by unfold G.init InI32; simp, fun _ hp => by simp [G.init] at hp, by simp [G.init, keys]⟩, by
+    simp [G.init, sumStates, wrap32]⟩
+
+theorem init_inv (m : Int) (hm : InI32 m) : Inv (G.init m) :=
+  ⟨(init_modInv m hm).1, by simp [G.init, sumStates]⟩
+
+theorem interleave_mem {ts : List (List Op)} {l : List Op} (h : Interleave ts l) :
+    ∀ op ∈ l, ∃ t ∈ ts, op ∈ t := by
+  induction h with
+  | done => intro op hop; cases hop
+  | step ts i op rest l hi _ ih =>
+    intro o ho
+    have hmem : (op :: rest) ∈ ts := List.mem_of_getElem? hi
+    cases ho with
+    | head => exact ⟨_, hmem, List.mem_cons_self ..⟩
+    | tail _ ho =>
+      obtain ⟨t, ht, hot⟩ := ih o ho
+      rcases List.mem_or_eq_of_mem_set ht with h1 | h1
+      · exact ⟨t, h1, hot⟩
+      · subst h1; exact ⟨_, hmem, List.mem_cons_of_mem _ hot⟩
+
+theorem runAcq_potential (reqs : List (List Int × Int)) (b : Bucket) (t0 : Int) (hq : 0 ≤ b.qps)
+    (hm : Mono b t0) (hok : TimesOk t0 reqs) :
+    (((runAcq b reqs).2 : Int) : Rat) + avail (runAcq b reqs).1 (endTime t0 reqs) ≤
+      avail b t0 + tokensFromNs b.qps (endTime t0 reqs - t0) ∧
+    Mono (runAcq b reqs).1 (endTime t0 reqs) ∧ (runAcq b reqs).1.qps = b.qps ∧ (runAcq b reqs).1.burst = b.burst ∧
+    (0 ≤ b.tokens → 0 ≤ (runAcq b reqs).1.tokens) ∧ t0 ≤ endTime t0 reqs := by
+  induction reqs generalizing b t0 with
+  | nil =>
+    simp only [runAcq, endTime]
+    have h0' : ((0 : Int) : Rat) = 0 := by norm_cast
+    have hz0 : tokensFromNs b.qps (t0 - t0) = 0 := by
+      have : t0 - t0 = 0 := by omega
+      rw [this]; unfold tokensFromNs; grind
+    refine ⟨by rw [h0', hz0]; grind, hm, trivial, trivial, fun h => h, Int.le_refl _⟩
+  | cons rq rest ih =>
+    obtain ⟨nows, ask⟩ := rq
+    obtain ⟨ha, hc, hrest⟩ := hok
+    obtain ⟨p1, p2, p3, p4, p5, _⟩ :=
+      tbLoop_potential nows b ask t0 (lastFrom t0 nows) hq ha hm hc (Int.le_refl _)
+    have hq' : 0 ≤ (tbLoop b ask nows).1.qps := by rw [p3]; exact hq
+    obtain ⟨q1, q2, q3, q4, q5, q6⟩ := ih (tbLoop b ask nows).1 (lastFrom t0 nows) hq' p2 hrest
+    have hl := chain_le_last t0 nows hc
+    have hsp := tfn_split b.qps t0 (lastFrom t0 nows) (endTime (lastFrom t0 nows) rest)
+    simp only [runAcq, endTime]
+    rw [p3] at q1
+    have hcast : (((tbLoop b ask nows).2.2 + (runAcq (tbLoop b ask nows).1 rest).2 : Int) : Rat) =
+        (((tbLoop b ask nows).2.2 : Int) : Rat) + (((runAcq (tbLoop b ask nows).1 rest).2 : Int) : Rat) := by
+      push_cast; rfl
+    refine ⟨by rw [hcast]; grind, q2, by rw [q3, p3], by rw [q4, p4], fun h => q5 (p5 h), by omega⟩
+
+theorem tbRun_potential (steps : List TBStep) (s : TBSys) (hq : 0 ≤ s.b.qps) (hm : Mono s.b s.clock) :
+    ((tbRun s steps).granted : Rat) + avail (tbRun s steps).b (tbRun s steps).clock ≤
+      (s.granted : Rat) + avail s.b s.clock + tokensFromNs s.b.qps ((tbRun s steps).clock - s.clock) ∧
+    Mono (tbRun s steps).b (tbRun s steps).clock ∧ (tbRun s steps).b.qps = s.b.qps ∧
+    (tbRun s steps).b.burst = s.b.burst ∧ (0 ≤ s.b.tokens → 0 ≤ (tbRun s steps).b.tokens) ∧
+    s.clock ≤ (tbRun s steps).clock := by
+  induction steps generalizing s with
+  | nil =>
+    simp only [tbRun, List.foldl_nil]
+    have hz0 : tokensFromNs s.b.qps (s.clock - s.clock) = 0 := by
+      have : s.clock - s.clock = 0 := by omega
+      rw [this]; unfold tokensFromNs; grind
+    refine ⟨by rw [hz0]; grind, hm, trivial, trivial, fun h => h, Int.le_refl _⟩
+  | cons st rest ih =>
+    cases st with
+    | tick d =>
+      have hle : s.clock ≤ s.clock + (d : Int) := by omega
+      have hs := avail_step s.b s.clock (s.clock + d) hq hm hle
+      obtain ⟨q1, q2, q3, q4, q5, q6⟩ := ih (tbStep s (.tick d)) hq (mono_later hm hle)
+      simp only [tbStep] at q1 q2 q3 q4 q5 q6
+      have hsp := tfn_split s.b.qps s.clock (s.clock + d) (tbRun { s with clock := s.clock + d } rest).clock
+      simp only [tbRun, List.foldl_cons, tbStep] at *
+      refine ⟨by grind, q2, q3, q4, q5, by omega⟩
+    | tryAcquire n =>
+      obtain ⟨p1, p2, p3, p4, p5, _⟩ := allowN_potential s.b s.clock n s.clock hq hm (Int.le_refl _)
+      have hz0 : tokensFromNs s.b.qps (s.clock - s.clock) = 0 := by
+        have : s.clock - s.clock = 0 := by omega
+        rw [this]; unfold tokensFromNs; grind
+      rw [hz0] at p1
+      obtain ⟨q1, q2, q3, q4, q5, q6⟩ := ih (tbStep s (.tryAcquire n)) (by simp only [tbStep]; rw [p3]; exact hq)
+        (by simp only [tbStep]; exact p2)
+      simp only [tbStep] at q1 q2 q3 q4 q5 q6
+      simp only [tbRun, List.foldl_cons, tbStep] at *
+      rw [p3] at q1
+      have hcast : ((s.granted + granted (allowN s.b s.clock n).2 n : Int) : Rat) =
+          (s.granted : Rat) + ((granted (allowN s.b s.clock n).2 n : Int) : Rat) := by push_cast; rfl
+      rw [hcast] at q1
+      refine ⟨by grind, q2, by rw [q3, p3], by rw [q4, p4], fun h => q5 (p5 h), q6⟩
+
+theorem tbLoop_accept_halving (nows : List Int) (b : Bucket) (t : Int)
+    (h : (tbLoop b t nows).2.1 = true) : ∃ k, k < nows.length ∧ (tbLoop b t nows).2.2 = halve t k := by
+  induction nows generalizing b t with
+  | nil => simp [tbLoop] at h
+  | cons now rest ih =>
+    unfold tbLoop at h ⊢
+    simp only [] at h ⊢
+    cases hok : (allowN b now t).2 with
+    | true => simp only [if_true]; exact ⟨0, by simp, rfl⟩
+    | false =>
+      simp only [hok, Bool.false_eq_true, if_false] at h ⊢
+      by_cases hz : t / KG.Gen.C08.tbDivisor ≤ 0
+      · simp only [hz, if_true] at h; cases h
+      · simp only [hz, if_false] at h ⊢
+        obtain ⟨k, hk, e⟩ := ih _ _ h
+        exact ⟨k + 1, by simp; omega, by rw [e]; rfl⟩
 
 end KG.Lemmas.GlobalCount
